@@ -144,6 +144,23 @@ pub fn laws(_args: &[String]) -> i32 {
             for p in all_places() { let mut s = base; s.place = mk_place(p); check(s, format!("place={}", opt16(p)), &mut fails); }
         }
     }
+    // node level, all seven nodes (Root, Manner and Laryngeal exist whether or not there is a place)
+    let all_nodes = [NodeKind::Root, NodeKind::Manner, NodeKind::Laryngeal, NodeKind::Labial, NodeKind::Coronal, NodeKind::Dorsal, NodeKind::Pharyngeal];
+    let mut node_laws = |s: Segment, tag: String, fails: &mut Vec<String>| {
+        for nd in all_nodes {
+            let cur = s.get_node(nd); n += 1;
+            if !s.node_match(nd, cur) { fail("nodeMatch_getNode", format!("node={nd:?} {tag}"), fails); }
+            if s.node_match(nd, None) != cur.is_none() { fail("nodeMatch_none", format!("node={nd:?} {tag}"), fails); }
+            for v in [0u8, 1, 2, 3, 0xA5, 255] {
+                if s.node_match(nd, Some(v)) != (cur == Some(v)) { fail("nodeMatch_value", format!("node={nd:?} v={v} {tag}"), fails); }
+            }
+            if s.is_node_some(nd) != cur.is_some() { fail("isNodeSome_getNode", format!("node={nd:?} {tag}"), fails); }
+        }
+    };
+    for p in all_places() { node_laws(Segment { root: 5, manner: 0xA5, laryngeal: 3, place: mk_place(p) }, format!("place={}", opt16(p)), &mut fails); }
+    for b in 0..=255u8 { for p in [None, Some(0xA454u16), Some(0x8000)] {
+        node_laws(Segment { root: b, manner: b.wrapping_mul(7), laryngeal: b & 7, place: mk_place(p) }, format!("byte={b} place={}", opt16(p)), &mut fails);
+    } }
     for f in &fails { println!("{f}"); }
     println!("OK {n}");
     if fails.is_empty() { 0 } else { 1 }
